@@ -1,5 +1,7 @@
 import CC.Lemmas.Prims
 import CC.Lemmas.Rev
+import CC.Lemmas.Cover
+import CC.Lemmas.World
 /-! # C18 — re-encapsulation with the master key preserves the audience -/
 
 namespace CC.Props.C18
@@ -100,5 +102,37 @@ theorem uptodate_key_opens_recaps (usk : Usk) (x' : XEnc) (r : Right) (c : List 
     have : x'.targets.all (·.hyb) = true := by rw [← hflav, hh]
     have := List.all_eq_true.1 this pk ht
     simp [this]
+
+/-- **… and no other key does, over every history.** In any reachable world, take the result of a
+re-encapsulation under the current public key; a user key all of whose secrets are master secrets
+of the right they are filed under (every key just generated or refreshed is such a key) and none of
+whose rights is among the recovered ones opens nothing: tokens never serve two rights. -/
+theorem no_other_key_opens_recaps (w : World) (hw : Reachable w) (enc : XEnc) (n : Rng) (s' : Nat) (x' : XEnc)
+    (h : (recaps w.msk w.msk.mpk enc n).1 = .ok (s', x'))
+    (usk : Usk)
+    (hfaith : ∀ r c, (r, c) ∈ usk.secrets → ∀ k ∈ c, ∃ mc, (r, mc) ∈ w.msk.secrets ∧ k ∈ mc.map (·.2))
+    (hdisj : ∀ s rights, fullDecaps w.msk enc = .ok (s, rights) → ∀ r c, (r, c) ∈ usk.secrets → r ∉ rights) :
+    decaps usk x' = none := by
+  obtain ⟨s, rights, hfd, _, _, htargets, _, _, _⟩ := recaps_spec w.msk w.msk.mpk enc n s' x' h
+  have hinv := reachable_inv w hw
+  apply (decaps_eq_none_iff usk x').2
+  rintro ⟨_, _, _, r, c, k, t, hm, hk, ht, ho⟩
+  -- the component was made for the published key of a recovered right
+  obtain ⟨r', hr', hkey⟩ := (mapMExcept_mem _ rights x'.targets htargets t).1 ht
+  have hlat := (mpk_keyOf w.msk hinv.keys r' t).1 hkey
+  unfold RevMap.getLatest at hlat
+  cases hl : w.msk.secrets.lookup r' with
+  | none => simp [hl] at hlat
+  | some mc' =>
+    rw [hl] at hlat
+    simp only [Option.bind_some] at hlat
+    have hmem' : (true, t) ∈ mc' := List.mem_of_mem_head? hlat
+    obtain ⟨mc, hmc, hkin⟩ := hfaith r c hm k hk
+    obtain ⟨v, hv, hvk⟩ := List.mem_map.1 hkin
+    have htok : v.2.tok = (true, t).2.tok := by
+      simp only [opens, Bool.and_eq_true, beq_iff_eq] at ho
+      rw [hvk]; exact ho.1
+    have := hinv.inj r mc r' mc' v (true, t) hmc (Look.lookup_mem hl) hv hmem' htok
+    exact hdisj s rights hfd r c hm (this ▸ hr')
 
 end CC.Props.C18
